@@ -66,7 +66,7 @@ use crate::consensus::block_producer::BlockProducer;
 use crate::crypto::{aggsig, signature};
 use crate::network::{RepairRequesterNetwork, RepairResponderNetwork, TransactionNetwork};
 use crate::repair::{Repair, RepairRequestHandler};
-use crate::shredder::{Shred, ShredValidationError, ValidatedShred};
+use crate::shredder::{RegularShredder, Shred, ShredValidationError, Shredder, ValidatedShred};
 use crate::types::Fraction;
 use crate::{All2All, Disseminator, Slot, ValidatorInfo};
 
@@ -408,6 +408,11 @@ where
             }
             Err(ShredValidationError::InvalidSignature) => return Ok(()),
         };
+        // the data/coding type is not authenticated: a shred whose type does not fit its index
+        // was altered on the way, the blockstore would drop it, so do not pass it on either
+        if !RegularShredder::has_expected_type(validated.as_shred()) {
+            return Ok(());
+        }
 
         // potentially forward shred
         self.disseminator.forward(validated.as_shred()).await?;
